@@ -60,7 +60,7 @@ Fixpoint rtoks (c : ctx) (t : term) {struct t} : res (list tok) :=
   | TValS _ _ | TValI _ _ | TValB _ _ _ | TValNone _ | TValRaw _ _ | TLit _ _ | TParam _ | TSub _ _ _ =>
       s <- render c t ;; Ok [KText s]
   | TNeg t' =>
-      s0 <- rtoks (opc SNeg t' c) t' ;;
+      s0 <- rtoks (opc SNeg t' (set_wa c false)) t' ;;
       let s := opndT SNeg t' s0 in
       Ok (KText "-" :: ptoks (match t' with TArith _ _ _ _ => neg_parens_arith | TNeg _ => neg_parens_neg | _ => false end
                              || (neg_parens_minus && starts_minus (flat (q c) s))) s)
@@ -77,25 +77,28 @@ Fixpoint rtoks (c : ctx) (t : term) {struct t} : res (list tok) :=
       let c' := set_wa c false in
       a0 <- rtoks (opc SCmpL l c') l ;; b0 <- rtoks (opc SCmpR r c') r ;;
       let s := opndT SCmpL l a0 ++ KText (cmp_text cm) :: opndT SCmpR r b0 in
-      Ok (if wa c then alias_toks c None s alias else s)
+      Ok (if wa c then alias_toks c (q c) s alias else s)
   | TCplx bo l r alias =>
-      a <- rtoks (set_subc c (needs_brackets_x bo (top_bop l))) l ;;
-      b <- rtoks (set_subc c (needs_brackets_x bo (top_bop r))) r ;;
-      Ok (ptoks (subc c) (a ++ KText (" " ++ bop_text_x bo ++ " ") :: b))
+      let c' := set_wa c false in
+      a <- rtoks (set_subc c' (needs_brackets_x bo (top_bop l))) l ;;
+      b <- rtoks (set_subc c' (needs_brackets_x bo (top_bop r))) r ;;
+      let s := ptoks (subc c) (a ++ KText (" " ++ bop_text_x bo ++ " ") :: b) in
+      Ok (if wa c then alias_toks c (q c) s alias else s)
   | TIn t' cont negated alias =>
-      a <- rtoks (opc SInTerm t' (set_subq c false)) t' ;; b <- rtoks (set_subq c true) cont ;;
+      a <- rtoks (opc SInTerm t' (set_wa (set_subq c false) false)) t' ;; b <- rtoks (set_wa (set_subq c true) false) cont ;;
       Ok (alias_toks c (q c) (opndT SInTerm t' a ++ KText (" " ++ (if negated then "NOT " else "") ++ "IN ") :: b) alias)
   | TBetween t' lo hi alias =>
-      a <- rtoks (opc SBetTerm t' c) t' ;; b <- rtoks (opc SBetLo lo c) lo ;; d <- rtoks (opc SBetHi hi c) hi ;;
+      let c' := set_wa c false in
+      a <- rtoks (opc SBetTerm t' c') t' ;; b <- rtoks (opc SBetLo lo c') lo ;; d <- rtoks (opc SBetHi hi c') hi ;;
       Ok (alias_toks c (q c) (opndT SBetTerm t' a ++ KText " BETWEEN " :: opndT SBetLo lo b ++ KText " AND " :: opndT SBetHi hi d) alias)
   | TBitAnd t' v alias =>
-      a <- rtoks c t' ;; Ok (alias_toks c (q c) (KText "(" :: a ++ [KText (" & " ++ v ++ ")")]) alias)
+      a <- rtoks (set_wa c false) t' ;; Ok (alias_toks c (q c) (KText "(" :: a ++ [KText (" & " ++ v ++ ")")]) alias)
   | TIsNull t' alias =>
       a <- rtoks (opc SIsNull t' (set_wa c false)) t' ;; Ok (alias_toks c (q c) (opndT SIsNull t' a ++ [KText " IS NULL"]) alias)
   | TNotNull t' alias =>
       a <- rtoks (opc SNotNull t' (set_wa c false)) t' ;; Ok (alias_toks c (q c) (opndT SNotNull t' a ++ [KText " IS NOT NULL"]) alias)
-  | TNot t' alias => a <- rtoks (set_subc c true) t' ;; Ok (alias_toks (set_subc c true) (q c) (KText "NOT " :: a) alias)
-  | TAll t' alias => a <- rtoks c t' ;; Ok (alias_toks c (q c) (a ++ [KText " ALL"]) alias)
+  | TNot t' alias => a <- rtoks (set_wa (set_subc c true) false) t' ;; Ok (alias_toks (set_subc c true) (q c) (KText "NOT " :: a) alias)
+  | TAll t' alias => a <- rtoks (set_wa c false) t' ;; Ok (alias_toks c (q c) (a ++ [KText " ALL"]) alias)
   | TEmpty => Err "TypeError"
   | TCase ws els alias =>
       let c' := set_wa c false in
@@ -112,9 +115,9 @@ Fixpoint rtoks (c : ctx) (t : term) {struct t} : res (list tok) :=
       let s := KText (name ++ "(") :: jtoks "," ss
                ++ [KText ((match special with Some sp => " " ++ sp | None => "" end) ++ ")")] in
       Ok (if wa c then alias_toks c (q c) s alias else s)
-  | TTuple vs alias => ss <- rtoks_list c vs ;; Ok (alias_toks c (q c) (KText "(" :: jtoks "," ss ++ [KText ")"]) alias)
+  | TTuple vs alias => ss <- rtoks_list (set_wa c false) vs ;; Ok (alias_toks c (q c) (KText "(" :: jtoks "," ss ++ [KText ")"]) alias)
   | TArray vs alias =>
-      ss <- rtoks_list c vs ;;
+      ss <- rtoks_list (set_wa c false) vs ;;
       let body := jtoks "," ss in
       let s := if is_pg (dia c)
                then (match flat (q c) body with
@@ -191,13 +194,16 @@ Inductive clause := ClSelect | ClOn | ClWhere | ClGroupBy | ClHaving | ClOrderBy
                   | ClInsColumn | ClInsValue | ClText.
 
 (* names and in-statement references of the sources; [base] = the tables do_join compares a joined table with *)
-Definition stmt_names (base : list tref) (from : list source) (joins : list (jhow * source * jcond))
+(* [tk]: the names in use before the joins, from the names of the FROM items (SELECT: ... ++ WITH names; UPDATE: target :: ...) *)
+Definition stmt_names (base : list tref) (tk : list string -> list string) (from : list source) (joins : list (jhow * source * jcond))
   : list (option string) * list (option string) :=
   let (fnames, n1) := name_from sub_count 0 from in
-  let (jnames, _) := name_joins base n1 joins in (fnames, jnames).
+  let (jnames, _) := name_joins base (tk (src_names from fnames)) n1 joins in (fnames, jnames).
+Definition sel_tk (withs : list (string * query)) (l : list string) : list string := l ++ map fst withs.
+Definition upd_tk (tbl : tref) (l : list string) : list string := tref_name tbl :: l.
 Definition jsources (joins : list (jhow * source * jcond)) : list source := map (fun j => snd (fst j)) joins.
-Definition stmt_srcs (base : list tref) (from : list source) (joins : list (jhow * source * jcond)) : list tref :=
-  let nm := stmt_names base from joins in src_refs from (fst nm) ++ src_refs (jsources joins) (snd nm).
+Definition stmt_srcs (base : list tref) (tk : list string -> list string) (from : list source) (joins : list (jhow * source * jcond)) : list tref :=
+  let nm := stmt_names base tk from joins in src_refs from (fst nm) ++ src_refs (jsources joins) (snd nm).
 
 (* _validate_table on the WHOLE WHERE criterion (fields_() does not descend into sub-queries): a field's table is neither
    a source nor the target *)
@@ -208,12 +214,12 @@ Definition foreign_in (scope srcs : list tref) (wheres : option item) : bool :=
 Definition first_is_builder (from : list source) : bool :=
   match from with SrcQ y :: _ => is_builder y | _ => false end.
 
-Definition sel_wns (from : list source) (joins : list (jhow * source * jcond)) (wheres : option item) : bool :=
-  let srcs := stmt_srcs (base_tables from) from joins in
+Definition sel_wns (withs : list (string * query)) (from : list source) (joins : list (jhow * source * jcond)) (wheres : option item) : bool :=
+  let srcs := stmt_srcs (base_tables from) (sel_tk withs) from joins in
   negb (Nat.eqb (List.length joins) 0) || Nat.ltb 1 (List.length from) || first_is_builder from
   || foreign_in srcs srcs wheres.
 Definition upd_wns (tbl : tref) (from : list source) (joins : list (jhow * source * jcond)) (wheres : option item) : bool :=
-  let srcs := stmt_srcs (tbl :: base_tables from) from joins in
+  let srcs := stmt_srcs (tbl :: base_tables from) (upd_tk tbl) from joins in
   negb (Nat.eqb (List.length joins) 0) || Nat.ltb 1 (List.length from) || first_is_builder from
   || foreign_in (tbl :: srcs) srcs wheres || negb (Nat.eqb (List.length from) 0).
 Definition del_wns (from : list source) (wheres : option item) : bool :=
@@ -223,15 +229,15 @@ Definition del_wns (from : list source) (wheres : option item) : bool :=
 (* the with_namespace flag of a statement as Query.v computes it; INSERT forces False on its own parts *)
 Definition q_wns (x : query) : bool :=
   match x with
-  | QSel _ _ _ _ from joins wheres _ _ _ _ _ _ _ => sel_wns from joins wheres
+  | QSel _ withs _ _ from joins wheres _ _ _ _ _ _ _ => sel_wns withs from joins wheres
   | QUpd _ tbl _ from joins wheres _ => upd_wns tbl from joins wheres
   | QDel _ from wheres => del_wns from wheres
   | _ => false
   end.
 Definition q_srcs (x : query) : list tref :=
   match x with
-  | QSel _ _ _ _ from joins _ _ _ _ _ _ _ _ => stmt_srcs (base_tables from) from joins
-  | QUpd _ tbl _ from joins _ _ => stmt_srcs (tbl :: base_tables from) from joins
+  | QSel _ withs _ _ from joins _ _ _ _ _ _ _ _ => stmt_srcs (base_tables from) (sel_tk withs) from joins
+  | QUpd _ tbl _ from joins _ _ => stmt_srcs (tbl :: base_tables from) (upd_tk tbl) from joins
   | QDel _ from _ => src_refs from (fst (name_from sub_count 0 from))
   | _ => []
   end.
@@ -327,9 +333,9 @@ Definition sel_render (kin : kctx) (walias subquery : bool) (ali : option string
     (wheres havings : option item) (groupbys : list item) (orderbys : list (item * option order))
     (l o : option Z) (fu : bool) : res string :=
   let k := defaults c kin in
-  let nm := stmt_names (base_tables from) from joins in
-  let srcs := stmt_srcs (base_tables from) from joins in
-  let wns := sel_wns from joins wheres in
+  let nm := stmt_names (base_tables from) (sel_tk withs) from joins in
+  let srcs := stmt_srcs (base_tables from) (sel_tk withs) from joins in
+  let wns := sel_wns withs from joins wheres in
   let base := kc k in
   let cx := sel_cx k wns in
   let kk := with_c k (set_wn base wns) in
@@ -347,7 +353,7 @@ Definition sel_render (kin : kctx) (walias subquery : bool) (ali : option string
          | [] => Ok ""%string
          | _ => gs <- mapM (fun y => match (if k_gba k then alias_ref selects y else None) with
                                      | Some a => Ok (fq (or_ostr (aq base) (q base)) a)
-                                     | None => ritem (mk_k (kc kk) (k_abs kk) true) srcs (cx ClGroupBy) y end) groupbys ;;
+                                     | None => ritem kk srcs (cx ClGroupBy) y end) groupbys ;;
                 Ok (" GROUP BY " ++ join "," gs)%string end) ;;
   hv <- opt_bind havings (fun i => a <- ritem kk srcs (cx ClHaving) i ;; Ok (" HAVING " ++ a)%string) ;;
   ob <- (match orderbys with
@@ -359,15 +365,15 @@ Definition sel_render (kin : kctx) (walias subquery : bool) (ali : option string
               ++ (match js with [] => "" | _ => " " ++ join " " js end)
               ++ wh ++ gb ++ hv ++ ob ++ page_tail c KSelect l o ++ (if fu then " FOR UPDATE" else ""))%string in
   let body := paren subquery body in
-  Ok (if walias then fmt_alias body ali (q base) (qalias_quote c) (askw base) else body)
+  Ok (if walias then fmt_alias body ali (q base) (k_qaq k) (askw base) else body)
   end.
 
 (* ---- UPDATE ---- *)
 Definition upd_render (kin : kctx) (c : cls) (tbl : tref) (sets : list (term * item))
     (from : list source) (joins : list (jhow * source * jcond)) (wheres : option item) (l : option Z) : res string :=
   let k := defaults c kin in
-  let nm := stmt_names (tbl :: base_tables from) from joins in
-  let srcs := stmt_srcs (tbl :: base_tables from) from joins in
+  let nm := stmt_names (tbl :: base_tables from) (upd_tk tbl) from joins in
+  let srcs := stmt_srcs (tbl :: base_tables from) (upd_tk tbl) from joins in
   let wns := upd_wns tbl from joins wheres in
   let cx := upd_cx k wns in
   let base := set_wn (kc k) wns in
@@ -417,7 +423,7 @@ Definition ins_render (kin : kctx) (walias subquery : bool) (ali : option string
   match rows, sel with
   | [], None => Ok ""%string
   | _ :: _, _ =>
-      rs <- rows_loop kk (set_subq (set_wa base true) true) rows ;;
+      rs <- rows_loop kk (set_subq (set_wa base false) true) rows ;;
       Ok (head ++ cols ++ " VALUES (" ++ join "),(" rs ++ ")")%string
   | [], Some y =>
       s <- rquery kk false false (qalias y) y ;;
@@ -425,7 +431,7 @@ Definition ins_render (kin : kctx) (walias subquery : bool) (ali : option string
       | EmptyString => Ok ""%string
       | _ =>
         let body := paren subquery (head ++ cols ++ " " ++ s)%string in
-        Ok (if walias then fmt_alias body ali (q base) (qalias_quote c) (askw base) else body)
+        Ok (if walias then fmt_alias body ali (q base) (k_qaq k) (askw base) else body)
       end
   end.
 
@@ -496,9 +502,9 @@ Definition sel_toks (kin : kctx) (walias subquery : bool) (ali : option string)
     (wheres havings : option item) (groupbys : list item) (orderbys : list (item * option order))
     (l o : option Z) (fu : bool) : res (list stok) :=
   let k := defaults c kin in
-  let nm := stmt_names (base_tables from) from joins in
-  let srcs := stmt_srcs (base_tables from) from joins in
-  let wns := sel_wns from joins wheres in
+  let nm := stmt_names (base_tables from) (sel_tk withs) from joins in
+  let srcs := stmt_srcs (base_tables from) (sel_tk withs) from joins in
+  let wns := sel_wns withs from joins wheres in
   let base := kc k in
   let cx := sel_cx k wns in
   let kk := with_c k (set_wn base wns) in
@@ -516,7 +522,7 @@ Definition sel_toks (kin : kctx) (walias subquery : bool) (ali : option string)
          | [] => Ok []
          | _ => gs <- mapT (fun y => match (if k_gba k then alias_ref selects y else None) with
                                      | Some a => Ok [KText (fq (or_ostr (aq base) (q base)) a)]
-                                     | None => itoks (mk_k (kc kk) (k_abs kk) true) srcs (cx ClGroupBy) y end) groupbys ;;
+                                     | None => itoks kk srcs (cx ClGroupBy) y end) groupbys ;;
                 Ok (KText " GROUP BY " :: jtoks "," gs) end) ;;
   hv <- opt_bindT havings (fun i => a <- itoks kk srcs (cx ClHaving) i ;; Ok (KText " HAVING " :: a)) ;;
   ob <- (match orderbys with
@@ -528,14 +534,14 @@ Definition sel_toks (kin : kctx) (walias subquery : bool) (ali : option string)
               ++ tg ClOn (match js with [] => [] | _ => KText " " :: jtoks " " js end)
               ++ tg ClWhere wh ++ tg ClGroupBy gb ++ tg ClHaving hv ++ tg ClOrderBy ob
               ++ tx (page_tail c KSelect l o ++ (if fu then " FOR UPDATE" else ""))%string in
-  Ok (salias walias (sparen subquery body) ali (askw base) (qalias_quote c) (q base))
+  Ok (salias walias (sparen subquery body) ali (askw base) (k_qaq k) (q base))
   end.
 
 Definition upd_toks (kin : kctx) (c : cls) (tbl : tref) (sets : list (term * item))
     (from : list source) (joins : list (jhow * source * jcond)) (wheres : option item) (l : option Z) : res (list stok) :=
   let k := defaults c kin in
-  let nm := stmt_names (tbl :: base_tables from) from joins in
-  let srcs := stmt_srcs (tbl :: base_tables from) from joins in
+  let nm := stmt_names (tbl :: base_tables from) (upd_tk tbl) from joins in
+  let srcs := stmt_srcs (tbl :: base_tables from) (upd_tk tbl) from joins in
   let wns := upd_wns tbl from joins wheres in
   let cx := upd_cx k wns in
   let base := set_wn (kc k) wns in
@@ -585,14 +591,14 @@ Definition ins_toks (kin : kctx) (walias subquery : bool) (ali : option string)
   match rows, sel with
   | [], None => Ok []
   | _ :: _, _ =>
-      rs <- rows_toks kk (set_subq (set_wa base true) true) rows ;;
+      rs <- rows_toks kk (set_subq (set_wa base false) true) rows ;;
       Ok (tx head ++ tg ClInsColumn cols ++ tx " VALUES (" ++ tg ClInsValue (jtoks "),(" rs) ++ tx ")")
   | [], Some y =>
       s <- rquery kk false false (qalias y) y ;;
       match s with
       | EmptyString => Ok []
       | _ => Ok (salias walias (sparen subquery (tx head ++ tg ClInsColumn cols ++ tx (" " ++ s)%string)) ali
-                        (askw base) (qalias_quote c) (q base))
+                        (askw base) (k_qaq k) (q base))
       end
   end.
 
@@ -656,45 +662,52 @@ Definition from_ev (s : source) : ev :=
   | SrcQ x => EFromQ (qalias x) (inner_count x)
   | SrcT t => EOther None
   | SrcA n => EOther None end.
-Definition join_ev (base : list tref) (j : jhow * source * jcond) : ev :=
+(* join(): every un-aliased sub-query or set operation is tagged sq<own>; tables never touch the counter *)
+Definition join_ev (j : jhow * source * jcond) : ev :=
   match snd (fst j) with
-  | SrcQ x => match qalias x, x with
-              | Some a, _ => EJoinQ (Some a)
-              | None, QSel _ _ _ _ _ _ _ _ _ _ _ _ _ _ => EJoinQ None
-              | None, _ => EOther None end
-  | SrcT t => EOther (match talias t with
-                      | None => if existsb (tref_eqb t) base then Some (tname t ++ "2")%string else None
-                      | Some a => Some a end)
-  | SrcA n => EOther None end.
+  | SrcQ x => EJoinQ (qalias x)
+  | _ => EOther None end.
 (* Query.v's order: every from_() first, then the joins *)
-Definition stmt_hist (base : list tref) (from : list source) (joins : list (jhow * source * jcond)) : list ev :=
-  map from_ev from ++ map (join_ev base) joins.
+Definition stmt_hist (from : list source) (joins : list (jhow * source * jcond)) : list ev :=
+  map from_ev from ++ map join_ev joins.
 
 Definition sq_prefixed (s : string) : bool :=
   match s with String "s" (String "q" _) => true | _ => false end.
 
 Definition q_hist (x : query) : list ev :=
   match x with
-  | QSel _ _ _ _ from joins _ _ _ _ _ _ _ _ => stmt_hist (base_tables from) from joins
-  | QUpd _ tbl _ from joins _ _ => stmt_hist (tbl :: base_tables from) from joins
-  | QDel _ from _ => stmt_hist [] from []
+  | QSel _ _ _ _ from joins _ _ _ _ _ _ _ _ => stmt_hist from joins
+  | QUpd _ _ _ from joins _ _ => stmt_hist from joins
+  | QDel _ from _ => stmt_hist from []
   | _ => []
   end.
 Definition q_named (x : query) : list (option string * nkind) := fst (run_hist 0 (q_hist x)).
 Definition invented_names (x : query) : list string := invented_of (q_named x).
 Definition given_sub_names (x : query) : list string := given_sub_of (q_named x).
 Definition subquery_names (x : query) : list string := sub_of (q_named x).
-(* do_join: the alias name ++ "2" written onto an un-aliased joined table that is already among the base tables *)
-Definition name2_of (base : list tref) (joins : list (jhow * source * jcond)) : list string :=
-  flat_map (fun j => match snd (fst j) with
-                     | SrcT t => match talias t with
-                                 | None => if existsb (tref_eqb t) base then [(tname t ++ "2")%string] else []
-                                 | Some _ => [] end
-                     | _ => [] end) joins.
+(* the names of the sub-query sources only (hist output / Query.v's effective aliases) *)
+Definition sub_names_hist (l : list (option string * nkind)) : list (option string) :=
+  map fst (filter (fun p => is_sub (snd p)) l).
+Fixpoint sub_only (ss : list source) (ns : list (option string)) : list (option string) :=
+  match ss with
+  | [] => []
+  | s :: r => (match s with SrcQ _ => [hd None ns] | _ => [] end) ++ sub_only r (tl ns)
+  end.
+(* do_join: the numbered alias name2, name3, ... written onto an un-aliased joined table that is already a base table:
+   the effective aliases of the un-aliased joined tables *)
+Fixpoint numbered_of (ss : list source) (ns : list (option string)) : list string :=
+  match ss with
+  | [] => []
+  | s :: r => (match s, hd None ns with
+               | SrcT t, Some a => (match talias t with None => [a] | Some _ => [] end)
+               | _, _ => [] end) ++ numbered_of r (tl ns)
+  end.
 Definition name2_names (x : query) : list string :=
   match x with
-  | QSel _ _ _ _ from joins _ _ _ _ _ _ _ _ => name2_of (base_tables from) joins
-  | QUpd _ tbl _ from joins _ _ => name2_of (tbl :: base_tables from) joins
+  | QSel _ withs _ _ from joins _ _ _ _ _ _ _ _ =>
+      numbered_of (jsources joins) (snd (stmt_names (base_tables from) (sel_tk withs) from joins))
+  | QUpd _ tbl _ from joins _ _ =>
+      numbered_of (jsources joins) (snd (stmt_names (tbl :: base_tables from) (upd_tk tbl) from joins))
   | _ => []
   end.
 (* every name the builder makes up in one statement *)
